@@ -6,7 +6,6 @@ import (
 	"github.com/orda-io/orda/client/pkg/iface"
 	"github.com/orda-io/orda/client/pkg/orda"
 
-	"github.com/orda-io/orda/server/constants"
 	"github.com/orda-io/orda/server/managers"
 	"github.com/orda-io/orda/server/schema"
 )
@@ -57,7 +56,8 @@ func (its *Manager) GetLatestDatatype() (iface.Datatype, uint64, errors.OrdaErro
 		}
 		datatype.ResetWired()
 	}
-	opList, sseqList, err := its.managers.Mongo.GetOperations(its.ctx, its.datatypeDoc.DUID, lastSseq+1, constants.InfinitySseq)
+	// up to the end of the log this manager was created for; behind it there may be the leftover of a failed commit
+	opList, sseqList, err := its.managers.Mongo.GetOperations(its.ctx, its.datatypeDoc.DUID, lastSseq+1, its.datatypeDoc.Sseq.End)
 	if err != nil {
 		return nil, 0, err
 	}
